@@ -5,7 +5,12 @@
 2. an accepted recorded trace is rejected by Trace_Stream, with the right clause, as soon as ONE
    logged result is corrupted;
 3. what the re-synchronisation buys: one stale tell() gives one DIAG with it, one per later
-   step without it.
+   step without it;
+4. boot files with a boot info table (shape b4, 20 bytes): an accepted trace on the reopened image;
+   Trace_Stream names an extraction that returns the whole 56-byte table (64 bytes) NeverBeyondEnd,
+   a reader that returns the bytes the file was added with "no-boot-info-table", equal bytes at
+   another position are the same result (alts); Judge_StreamContent rejects a content that is not
+   the overlay / not what the image holds.
 """
 import det
 det.install()
@@ -16,6 +21,7 @@ import sys
 import tempfile
 
 import check_C16 as C
+import judge
 
 LENS = {'z': 0, 'm': 3}
 
@@ -72,6 +78,8 @@ def main():
         ('seek result', 5, lambda r: r.update(ret=r['ret'] + 1), (5, 'SeekSemantics')),
         ('negative seek accepted', 9, lambda r: r.update(out='ok', exc='', ret=3), (9, 'SeekSemantics')),
         ('extraction one unit short', 1, lambda r: r.update(lenu=2), (1, 'ExtractExact')),
+        ('extraction with bytes beyond the end', 1, lambda r: r.update(lenu=3, lenr=5, matches=False),
+         (1, 'NeverBeyondEnd')),
         ('read on closed stream accepted', 12, lambda r: r.update(out='ok', exc=''), (12, 'ClosedRefused')),
         ('undocumented exception', 10, lambda r: r.update(out='exc', exc='KeyError'), (10, 'UndocumentedException')),
     ]
@@ -93,6 +101,61 @@ def main():
            clauses(with_rs))
     expect('without re-sync: every later step', sorted({s for (s, _c) in clauses(without)}) == [3, 4, 5, 6, 7],
            clauses(without))
+    # 4. boot file with a boot info table: b = 4 units of 5 bytes
+    blens = {'b': 4, 's': 1}
+    bgood = [A('Extract', file='b', bs='7'), A('Open', sid=1, file='b'), A('Read', sid=1, n=2), A('Read', sid=1, n=1),
+             A('Seek', sid=1, off=1, wh=0), A('ReadInto', sid=1, k=5), A('Extract', file='s', bs='1'),
+             A('Seek', sid=1, off=0, wh=0), A('ReadAll', sid=1), A('Close', sid=1)]
+    scratch = tempfile.mkdtemp(prefix='verif-c16-self-')
+    try:
+        fx = C.Fixture('image', 'b5', blens, scratch, ['b'])
+        bev = C.replay(fx, bgood)
+        raw = C.replay(C.Fixture('added_laid', 'b5', blens, scratch, ['b']), bgood)
+    finally:
+        shutil.rmtree(scratch, ignore_errors=True)
+    bres = C.validate_traces([{'id': 'b', 'ev': bev}], blens, tablefiles=['b'])
+    expect('boot info table, reopened image: trace accepted', clauses(bres) == [], clauses(bres))
+
+    def bmut(step, fn):
+        e2 = copy.deepcopy(bev)
+        fn(e2[step - 1]['r'])
+        return e2
+    # what the seeded change C16-m3 does: 8 bytes + the whole table = 64 bytes for a 20-byte file
+    def whole_table(r):
+        r.update(matches=False, lenu=12, lenr=4, phit=True, pstart=0, pmatch=4)
+    # a reader without the table: the bytes are those the file was added with, at the same place
+    def no_table(r):
+        r.update(matches=False, omatches=True, ostart=r['start'])
+    bm = [('extraction returns the whole table', 1, whole_table, (1, 'NeverBeyondEnd', 'none')),
+          ('extraction without the table', 1, no_table, (1, 'ExtractExact', 'no-boot-info-table')),
+          ('stream read without the table', 3, no_table, (3, 'ReadReturnsRequestedSlice', 'no-boot-info-table')),
+          ('stream read from elsewhere', 4, lambda r: r.update(start=0, alts=[1]), (4, 'ReadReturnsRequestedSlice', 'none'))]
+    bt = [{'id': 'bm%d' % i, 'ev': bmut(step, fn)} for (i, (_n, step, fn, _w)) in enumerate(bm)]
+    # equal bytes are found at two places: the expected place among them is the same result
+    alt = copy.deepcopy(bev)
+    alt[3]['r'].update(start=0, alts=[2, 3])
+    bt.append({'id': 'alt', 'ev': alt})
+    res = C.validate_traces(bt, blens, tablefiles=['b'])
+    for (i, (name, _step, _fn, want)) in enumerate(bm):
+        got = sorted({(d['step'], f['clause'], f['cause']) for d in res['diag'] if d['tid'] == 'bm%d' % i
+                      for f in d['fails']})
+        expect('boot info table, corrupted: ' + name, want in got, got)
+    got = [d for d in res['diag'] if d['tid'] == 'alt']
+    expect('boot info table: same bytes at several positions accepted', got == [], got)
+    # the real library, object not yet written (recorded, not asserted: open findings of C16)
+    rres = C.validate_traces([{'id': 'raw', 'ev': raw}], blens, tablefiles=['b'])
+    print('INFO not yet written object, real library: %s' % sorted(
+        {(d['step'], d['act'], f['clause'], f['cause']) for d in rres['diag'] for f in d['fails']}))
+    # the content rule
+    obs = fx.content_obs[0]
+    o2 = dict(obs, id='cut', expected=obs['expected'] + obs['table'][12:20])       # not cut at the end
+    o3 = dict(obs, id='image', on_image=obs['orig'])                               # image without the table
+    o4 = dict(obs, id='notable', expected=obs['orig'], on_image=obs['orig'])       # no table anywhere
+    (cf, _st) = judge.judge('Judge_StreamContent', [obs, o2, o3, o4])
+    expect('content: overlay accepted', obs['id'] not in cf, cf.get(obs['id']))
+    expect('content: not cut at the end of the file', 'ExpectedIsOverlay' in cf.get('cut', []), cf.get('cut'))
+    expect('content: image holds something else', cf.get('image') == ['ImageHoldsOverlay'], cf.get('image'))
+    expect('content: no table', 'TableIsThere' in cf.get('notable', []), cf.get('notable'))
     print('selftest_stream: %s' % ('OK' if ok else 'FAILED'))
     return 0 if ok else 1
 
